@@ -62,6 +62,11 @@ package pslice
 //@   ensures keeps-shape: shape(s)
 //@   ensures keeps-apart: apart(s) && forall b :: 0 <= b && b < s.maxBins ==> ref(s.peers[b]) != ref(s.peers)
 //@   ensures other-bins-untouched: forall b :: 0 <= b && b < s.maxBins && b != binOf(s, addr) ==> s.peers[b] == old(s.peers[b])
+//@   # iteration takes a bin's slice under the read lock and walks it afterwards: that snapshot stays
+//@   # valid because Remove installs a fresh copy (never a re-slice whose spare capacity a later Add would
+//@   # overwrite) and never writes a region that existed before
+//@   ensures copy-on-remove: old(mem(s, addr)) ==> fresh(s.peers[binOf(s, addr)]) && cap(s.peers[binOf(s, addr)]) == len(s.peers[binOf(s, addr)])
+//@   ensures snapshots-untouched: forall b, i :: 0 <= b && b < s.maxBins && 0 <= i && i < old(len(s.peers[b])) ==> old(s.peers[b])[i] == old(s.peers[b][i])
 //@   ensures bounded-keeps-nodup: nodup(s)
 //@   ensures bounded-removed: !mem(s, addr)
 //@   ensures bounded-others-kept: forall x boson.Address :: x != addr ==> (mem(s, x) <==> old(mem(s, x)))
